@@ -186,6 +186,9 @@ structure Tables where
   subInherited : List String
   /-- where parse_args drops a pending print_config request -/
   printConfigCleanup : Cleanup
+  /-- explicit checks that turn a malformed value into a designed failure (each was a repair of a finding); the
+  extractor lists those it still finds in the source -/
+  guards : List String
 
 def sub (T : Tables) (c d : Exc) : Bool := (T.ancestors c).contains d
 
@@ -510,7 +513,8 @@ def designed (mode : Mode) : Region → List DSig
   | .loadDoc => [.loader]
   | .yamlConstruct => if mode = .yaml || mode = .jsonnet then [.exc .YAMLError, .exc .ValueError] else []
   | .yamlAlways => [.exc .YAMLError, .exc .ValueError]
-  | .subcommands => [.exc .KeyError, .exc .TypeError] -- NSKeyError: required sub-command missing; TypeError: a sub-command name that is not hashable
+  | .subcommands => [.exc .KeyError, .exc .TypeError] -- NSKeyError: sub-command missing / unknown name (96e4fb9); TypeError: name not hashable, settings not a mapping (adfb1a7)
+  | .subcmdAction => [.exc .TypeError]               -- _check_subcommand_settings: settings given earlier (e.g. by --cfg) are not a mapping (adfb1a7)
   | .printConfig => [.exit0]
   | .links => [.exc .Exception]                      -- user compute_fn: anything
   | .validate => [.exc .KeyError]                    -- NSKeyError: unexpected key
